@@ -19,6 +19,7 @@ Definition x_old_keys := old_keys sha1.
 Definition x_encrypt := encrypt sha256 aes_enc.
 Definition x_encrypt_data := encrypt_data sha256 aes_enc.
 Definition x_decrypt := decrypt sha256 aes_dec.
+Definition x_conn_encrypt := conn_encrypt sha256 aes_enc.
 Definition x_encrypt_bind := encrypt_bind sha1 aes_enc.
 
 Definition err_code (e : err) : Z :=
